@@ -41,7 +41,7 @@ func sameIndex(a, b desync.Index) string {
 var c04Fixtures = []string{"testdata/index.caibx", "testdata/chunker.index", "testdata/blob1.caibx", "cmd/desync/testdata/blob1.caibx", "cmd/desync/testdata/blob2.caibx", "cmd/desync/testdata/tree.caidx"}
 
 func runC04(c *fw.Case) {
-	if desyncBin() != "" && c.Chance(1, procRate(25), "c04.proc") {
+	if desyncBin() != "" && c.ChanceAdded(1, procRate(25), "c04.proc") {
 		runC04Proc(c)
 		return
 	}
